@@ -66,7 +66,7 @@ pub fn run_c01(ctx: &mut Ctx) {
          buffer sizes from longest+13 upward; chunkings: all-at-once, 1-byte, buffer-filling, every single cut (wires <= 600 B; sampled in quick), random. Expectation known by construction (independent lossy/uppercase/last-wins reference). \
          Non-trivial: >= 1 pair or >= 1 noise record; distinct by (wire, buffer size, chunking)");
     let mut rng = ctx.rng.fork();
-    let ncases = ctx.n(260, 5000);
+    let ncases = ctx.n(260, 1500);
     let thorough = ctx.tier_thorough || ctx.widen;
     for ci in 0..ncases {
         let big = ci % 37 == 5;
